@@ -13,10 +13,11 @@ def run(chk):
         "C13: tools/translate/sha_consts.py (regex extraction of SHA256_K, h0..h7, tag bytes from hash.ts)",
         "C13: Model/Sha256.lean models hash.ts:76-234 by hand; JS numbers of the length computation are exact below 2^53 bits (stated, not modelled)",
         "C13: strings are sequences of Unicode scalars (lone surrogates, which TextEncoder replaces by U+FFFD, are outside the model)",
+        "C13: Model/Hash256.lean models hash256() of every *Runtype class and ParserFromRuntype.hash256 by hand; strings compare by code point (equal to the UTF-16 code-unit order of Array.prototype.sort below U+D800)",
         "C13: collision resistance of SHA-256 is a cryptographic assumption, never a Lean axiom",
     ]
     chk.open_obligations += [
-        "hash256_stream_* theorems over Runtype trees — pending the RT layer",
+        "injectivity of the Runtype-level token stream (Model/Hash256.h256) up to the declared equivalences: not proved; searched by the runtype-pair pass (c13.collision)",
     ]
     quick = chk.tier == "quick"
     stats = []
@@ -24,6 +25,15 @@ def run(chk):
     stats.append(vcheck.corr_pass(chk, "sha", lines, "sha-writes(random)", engine="js", nontrivial=lambda r, i: True))
     lines = chk.gen_js("sha", 0, 0, "exhaustive", 70 if quick else 200)
     stats.append(vcheck.corr_pass(chk, "sha", lines, "sha-writes(all 2-chunk splits)", engine="js", nontrivial=lambda r, i: True))
+    def c13_only(orc):
+        tags = [t for t in orc.replace("(", " ").replace(")", " ").split() if t.startswith("c13.")]
+        return ("(oracle fail " + " ".join(tags) + ")") if tags else None
+    def differs(req, ir):
+        parts = ir.rsplit('"', 4)
+        return len(parts) == 5 and parts[1] != parts[3]
+    stats.append(vcheck.corr_pass(chk, "h256", vcheck.corpus_lines("C13"), "runtype-pairs(corpus)", engine="js", oracle_filter=c13_only, nontrivial=differs))
+    lines = chk.gen_js("h256", chk.seed, 1500 if quick else 40000)
+    stats.append(vcheck.corr_pass(chk, "h256", lines, "runtype-pairs", engine="js", oracle_filter=c13_only, nontrivial=differs))
     if not (ok and aok):
         found = any(not s.endswith("no-failing-input-found") for _, s in chk.violations)
         if not found:
@@ -34,7 +44,7 @@ def run(chk):
         "distinct_nontrivial": sum(s["nontrivial"] for s in stats),
         "corr_mismatches": sum(s["mismatch"] for s in stats),
         "corr_oracle_failures": sum(s["oracle_fail"] for s in stats),
-        "corr_rule": "write sequences through the REAL Hash256Writer (type-stripped hash.ts): random byte chunks with lengths around 0/55/56/63/64/65/119/120/128 and token sequences (tag/string/number/boolean/null incl. non-ASCII), plus EVERY split of messages of length 0..N into two chunks; digest compared with the compiled Lean writer model; independently with node:crypto on the same byte stream (property oracle). every request is non-trivial (a digest); distinct = distinct request text",
+        "corr_rule": "write sequences through the REAL Hash256Writer (type-stripped hash.ts): random byte chunks with lengths around 0/55/56/63/64/65/119/120/128 and token sequences (tag/string/number/boolean/null incl. non-ASCII), plus EVERY split of messages of length 0..N into two chunks; digest compared with the compiled Lean writer model; independently with node:crypto on the same byte stream (property oracle). every request is non-trivial (a digest); distinct = distinct request text. Runtype level: pairs (env, Runtype) built from the REAL classes — a generated type and (a) one point change of a random kind (optionality, tuple rest/length, key, property, index signature, constant, leaf, discriminator key/tag/mapping, reference target, member, container, connective, template, formats, wrapping) optionally followed by name/alias/order/description rewrites, or (b) only such rewrites; half of the environments are mutually recursive. digest of both sides compared with Model/Hash256.lean (token stream of every class + cycle offsets) and acceptance bits on 12 values with the validator model; property oracle on the JS results: equal digests with different bits = c13.collision, different digests under (b) = c13.same; non-trivial for this pass = the two validators disagree on a value",
     })
 
 def replay(chk, path):
